@@ -82,7 +82,7 @@ impl Property for C13 {
         ]
     }
     fn not_run() -> Vec<&'static str> {
-        vec!["load_pnm / save_ppm bodies (File::open / File::create); the same BufReader/BufWriter compositions are run over the stubs"]
+        vec!["load_pnm / save_ppm are not run under simulation (they open std::fs::File themselves): the same BufReader/BufWriter compositions are simulated over the stubs, and the wrappers themselves are cross-checked against the stream functions on the real file system, fault-free, in ~2.5% of search runs (oracle W)"]
     }
     fn rule() -> &'static str {
         "Seeded search: job i of the batch is scenario gen(mix(VERIF_SEED, 13, i)) = (workload: image written by the real write_ppm through a simulated sink | file spelled by the harness's foreign writer | odd-header bytes) x (writer stack, chunking, interruptions, write/flush error) x (0-3 storage faults) x (reader stack, chunking, interruptions, read error / early EOF). Sweeps: one fault at every position of sampled small base files (every truncation length, bit, block position for sizes 1/3/8, garbage pair, span loss/duplication, read-error and early-EOF byte). A run is non-trivial when at least one benign or destructive behaviour actually fired (ledger), i.e. the stubs did not behave like a plain Vec/&[u8]; distinct = distinct hashes of the event log (every seam call: seq, call#, requested, decision, bytes; every disk fault) plus stored length."
@@ -131,7 +131,7 @@ impl Property for C14 {
         ]
     }
     fn not_run() -> Vec<&'static str> {
-        vec!["load_obj body (File::open); the same `&mut BufReader` composition is run over the stub"]
+        vec!["load_obj is not run under simulation (it opens std::fs::File itself): the same `&mut BufReader` composition is simulated over the stub, and load_obj itself is cross-checked against parse_obj on the real file system, fault-free, in ~2.5% of search runs (oracle W)"]
     }
     fn rule() -> &'static str {
         "Seeded search: job i is scenario gen(mix(VERIF_SEED, 14, i)) = (OBJ text written by the harness from a random mesh: layouts, index forms, number spellings; ~12% near-miss exporter output) x (0-3 storage faults) x (reader stack, chunking, interruptions, read error / early EOF). Sweeps: one fault at every position of sampled small base files (every truncation length, bit, block position for sizes 1/3/8, garbage pair, whole-line loss/duplication, read-error and early-EOF byte). A run is non-trivial when at least one benign or destructive behaviour actually fired (ledger); distinct = distinct hashes of the event log (every seam call and disk fault) plus stored length."
